@@ -73,8 +73,54 @@ def fam_circulant(n, jumps, tag="z"):
     return {(B(tag, i), P[0], B(tag, (i + j) % n)) for i in range(n) for j in jumps}
 
 
+def fam_stars(k, leaves, tag="s", inward=False):
+    t = set()
+    for i in range(k):
+        c = B(tag + "c", i)
+        for j in range(leaves):
+            l = BNode("%sl%d_%d" % (tag, i, j))
+            t.add((l, P[0], c) if inward else (c, P[0], l))
+    return t
+
+
+def fam_paths(k, n, tag="h"):
+    return {(BNode("%s%d_%d" % (tag, i, j)), P[0], BNode("%s%d_%d" % (tag, i, j + 1))) for i in range(k) for j in range(n)}
+
+
+def twin_leaf_components(triples):
+    """input predicate of the listed finding: >= 3 pairwise look-alike blank-node components, each with a pair of interchangeable leaves"""
+    bn = {x for t in triples for x in (t[0], t[2]) if isinstance(x, BNode)}
+    adj = {b: set() for b in bn}
+    inc = {b: [] for b in bn}
+    for s, p, o in triples:
+        if isinstance(s, BNode): inc[s].append(("out", p, o if not isinstance(o, BNode) else None, o))
+        if isinstance(o, BNode): inc[o].append(("in", p, s if not isinstance(s, BNode) else None, s))
+        if isinstance(s, BNode) and isinstance(o, BNode): adj[s].add(o); adj[o].add(s)
+    seen = set(); sigs = {}
+    for b in bn:
+        if b in seen: continue
+        comp = []; todo = [b]
+        while todo:
+            x = todo.pop()
+            if x in seen: continue
+            seen.add(x); comp.append(x); todo.extend(adj[x] - seen)
+        # twin leaves: two nodes of degree 1 hanging off the same neighbour in the same way
+        leaves = {}
+        for x in comp:
+            if len(inc[x]) == 1 and isinstance(inc[x][0][3], BNode):
+                d, pr, _, nb = inc[x][0]
+                leaves.setdefault((d, str(pr), nb), []).append(x)
+        twins = any(len(v) >= 2 for v in leaves.values())
+        sig = (len(comp), tuple(sorted(len(inc[x]) for x in comp)))
+        if twins: sigs[sig] = sigs.get(sig, 0) + 1
+    return any(n >= 3 for n in sigs.values())
+
+
 def gen_structured(rng):
-    k = rng.randrange(9)
+    k = rng.randrange(12)
+    if k == 9: return fam_stars(rng.choice([2, 3, 3, 4]), rng.choice([1, 2, 2, 3]), inward=rng.random() < 0.3), "stars"
+    if k == 10: return fam_paths(rng.choice([2, 3, 4]), rng.choice([1, 2, 3])), "paths"
+    if k == 11: return fam_stars(rng.choice([1, 2]), rng.choice([3, 4])) | fam_cycle(3, "sc"), "stars+cycle"
     if k == 0: return fam_cycle(rng.choice([3, 4, 5, 6, 8, 10]), undirected=rng.random() < 0.5), "cycle"
     if k == 1: return fam_kmn(rng.choice([1, 2, 3]), rng.choice([2, 3, 4])), "kmn"
     if k == 2:
@@ -155,6 +201,9 @@ def run_pair(case, st=None):
         return None
     g1, g2 = mk(G), mk(H)
     before = ({tkey(t) for t in g1}, {tkey(t) for t in g2})
+    if not case.get("no_carve") and (twin_leaf_components(G) or twin_leaf_components(H)):
+        st.setdefault("_known", {})["C14-identical-components-with-twin-leaves"] = 1
+        return None
     nb = len({x for t in G for x in t if isinstance(x, BNode)})
     try:
         got = timed(lambda: isomorphic(g1, g2))
